@@ -121,6 +121,14 @@ func (c10) Cases(tier string, seed uint64) []fw.Case {
 	for i := 0; i < n; i++ {
 		cs = append(cs, fw.Case{Seed: fw.CaseSeed(seed, "C10race", i), Name: fmt.Sprintf("concurrent-insert-batches%d", i), Params: map[string]any{"race_rounds": rounds}})
 	}
+	// tiny chains: see c10TinyChains
+	tn, chains := 8, 150
+	if tier == "thorough" {
+		tn, chains = 32, 600
+	}
+	for i := 0; i < tn; i++ {
+		cs = append(cs, fw.Case{Seed: fw.CaseSeed(seed, "C10chain", i), Name: fmt.Sprintf("tiny-chains%d", i), Params: map[string]any{"chains": chains}})
+	}
 	return cs
 }
 
@@ -128,6 +136,9 @@ func (c03) RunCase(c fw.Case, env *fw.Env) *fw.CaseResult { return runVamana(c, 
 func (c10) RunCase(c fw.Case, env *fw.Env) *fw.CaseResult {
 	if c.Int("race_rounds", 0) > 0 {
 		return c10InsertRace(c, env)
+	}
+	if c.Int("chains", 0) > 0 {
+		return c10TinyChains(c, env)
 	}
 	return runVamana(c, env, "C10")
 }
@@ -185,6 +196,127 @@ func c10InsertRace(c fw.Case, env *fw.Env) *fw.CaseResult {
 		for _, p := range probs {
 			res.Violate("graph-"+p.kind, "C10:"+p.kind, fmt.Sprintf("graph built by one insert batch of %d %d-dimensional points (degree bound %d, alpha %g), round %d: %s", n, dim, degree, alpha, round, p.msg), nil)
 		}
+		if len(res.Violations) > 6 {
+			break
+		}
+	}
+	return res
+}
+
+// c10TinyChains: many tiny histories on collinear points at doubling distances, inserted one request
+// each (which gives chains and, after deletions, one-directional edges from the entry node or from
+// "saved" nodes), with deletions of arbitrary subsets in one batch - including everything, the tail,
+// and the only neighbours of a node. The raw dump is judged after every batch; a search on the warm
+// instance and on a cold reopen must not fail.
+func c10TinyChains(c fw.Case, env *fw.Env) *fw.CaseResult {
+	res := fw.NewResult()
+	rng := rand.New(rand.NewPCG(c.Seed, 1010))
+	vc := vecConfig{Name: "chain", Metric: models.DistanceEuclidean, Dim: 2, Quant: "none"}
+	schema := vectorSchema("vamana", vc, 25, 32, 1.2)
+	sv := schema["v"]
+	search := func(s *sx.Sx, x float32) error {
+		_, err := s.Search(models.SearchRequest{Query: models.Query{Property: "v", VectorVamana: &models.SearchVectorVamanaOptions{Vector: []float32{x, 0}, Operator: models.OperatorNear, SearchSize: 25, Limit: 10}}, Limit: 10})
+		return err
+	}
+	for h := 0; h < c.Int("chains", 200); h++ {
+		path := shardPath(env, fmt.Sprintf("tiny%d", h))
+		cm := cache.NewManager([]int64{-1, -1, 0}[h%3])
+		s, err := sx.Open(path, schema, cm, 0)
+		if err != nil {
+			res.Inconclusive++
+			return res
+		}
+		g := gen.New(c.Seed+uint64(h), schema)
+		m := model.New()
+		var order []uuid.UUID // insertion order of the live points
+		next := 0
+		script := []string{}
+		steps := 4 + rng.IntN(8)
+		for step := 0; step < steps; step++ {
+			var op gen.Op
+			if len(order) == 0 || rng.IntN(5) < 3 {
+				op = gen.Op{Kind: gen.OpInsert, Tag: "chain-insert"}
+				for k := 0; k < 1+rng.IntN(6)/5; k++ {
+					x := float32(10 * (int(1) << (next % 12)))
+					if rng.IntN(6) == 0 {
+						x = -x
+					}
+					next++
+					id := g.NewId()
+					op.Points = append(op.Points, model.Point{Id: id, Doc: model.Doc{"v": []float32{x, 0}}})
+					order = append(order, id)
+				}
+				script = append(script, fmt.Sprintf("insert %d", len(op.Points)))
+			} else {
+				op = gen.Op{Kind: gen.OpDelete, Tag: "chain-delete"}
+				n := len(order)
+				var pick []int
+				switch rng.IntN(4) {
+				case 0: // a prefix in insertion order
+					for i := 0; i < 1+rng.IntN(n); i++ {
+						pick = append(pick, i)
+					}
+				case 1: // a suffix
+					for i := n - 1 - rng.IntN(n); i < n; i++ {
+						pick = append(pick, i)
+					}
+				case 2: // everything
+					for i := 0; i < n; i++ {
+						pick = append(pick, i)
+					}
+				default: // any subset
+					for i := 0; i < n; i++ {
+						if rng.IntN(2) == 0 {
+							pick = append(pick, i)
+						}
+					}
+					if len(pick) == 0 {
+						pick = []int{rng.IntN(n)}
+					}
+				}
+				gone := map[int]bool{}
+				for _, i := range pick {
+					op.Ids = append(op.Ids, order[i])
+					gone[i] = true
+				}
+				keep := order[:0:0]
+				for i, id := range order {
+					if !gone[i] {
+						keep = append(keep, id)
+					}
+				}
+				order = keep
+				script = append(script, fmt.Sprintf("delete %v of %d", pick, n))
+			}
+			ok, _ := applyOp(res, "C10", s, m, op, step)
+			if !ok {
+				s.Close()
+				return res
+			}
+			dump, err := sx.DumpStore(s.Shard.VerifDiskStore(), schema)
+			if err != nil {
+				res.Violate("dump-error", "C10:dump", err.Error(), nil)
+				s.Close()
+				return res
+			}
+			probs, nodes, _ := graphInvariants(dump, "v", sv, m)
+			res.Eval(op.Kind == gen.OpDelete && nodes >= 1, "tiny-chain", fw.Hash64(script))
+			res.Stat("tiny_chain_dumps", 1)
+			for _, p := range probs {
+				res.Violate("graph-"+p.kind, "C10:"+p.kind, fmt.Sprintf("tiny chain (one point per request on a line at doubling distances), history %v: %s", script, p.msg), nil)
+			}
+			if err := search(s, float32(rng.IntN(2000))); err != nil {
+				res.Violate("search-error", "C10:chain-search:"+errClass(err), fmt.Sprintf("tiny chain, history %v: a search on the running instance fails: %v", script, err), nil)
+			}
+		}
+		s.Close()
+		if cold, err := sx.Open(path, schema, nil, 0); err == nil {
+			if err := search(cold, float32(rng.IntN(2000))); err != nil {
+				res.Violate("search-error", "C10:chain-search-cold:"+errClass(err), fmt.Sprintf("tiny chain, history %v: a search on a reopened instance fails: %v", script, err), nil)
+			}
+			cold.Close()
+		}
+		os.RemoveAll(path)
 		if len(res.Violations) > 6 {
 			break
 		}
